@@ -148,9 +148,9 @@ func (ctx context) generateLinkTable(ta sql.Table, cols columnsCode) (out []gen.
 			if key.IsUnique {
 				content += fmt.Sprintf(`
 				// By%[1]s returns a map with '%[1]s' as keys.
-				func (items %[2]ss) By%[1]s() map[%[3]s]%[2]s {
-					out := make(map[%[3]s]%[2]s, len(items))
-					for _, target := range items {
+				func (items_ %[2]ss) By%[1]s() map[%[3]s]%[2]s {
+					out := make(map[%[3]s]%[2]s, len(items_))
+					for _, target := range items_ {
 						out[target.%[1]s] = target
 					}
 					return out
@@ -158,9 +158,9 @@ func (ctx context) generateLinkTable(ta sql.Table, cols columnsCode) (out []gen.
 			} else {
 				content += fmt.Sprintf(`
 				// By%[1]s returns a map with '%[1]s' as keys.
-				func (items %[2]ss) By%[1]s() map[%[3]s]%[2]ss {
+				func (items_ %[2]ss) By%[1]s() map[%[3]s]%[2]ss {
 					out := make(map[%[3]s]%[2]ss)
-					for _, target := range items {
+					for _, target := range items_ {
 						out[target.%[1]s] = append(out[target.%[1]s], target)
 					}
 					return out
@@ -172,9 +172,9 @@ func (ctx context) generateLinkTable(ta sql.Table, cols columnsCode) (out []gen.
 			// %[1]ss returns the list of ids of %[1]s
 			// contained in this link table.
 			// They are not garanteed to be distinct.
-			func (items %[2]ss) %[1]ss() []%[3]s {
-				out := make([]%[3]s, len(items))
-				for index, target := range items {
+			func (items_ %[2]ss) %[1]ss() []%[3]s {
+				out := make([]%[3]s, len(items_))
+				for index, target := range items_ {
 					out[index] = target.%[1]s
 				}
 				return out
